@@ -134,10 +134,13 @@ impl super::GetFrameType for ConnectionCloseFrame {
 
 impl super::EncodeSize for ConnectionCloseFrame {
     fn max_encoding_size(&self) -> usize {
-        // reason's length could not exceed 16KB, so it can be encoded in 2 bytes.
+        // reason's length usually does not exceed 16KB, so it can be encoded in 2 bytes.
+        let reason_len = |reason: &str| {
+            VarInt::try_from(reason.len()).unwrap().encoding_size().max(2) + reason.len()
+        };
         match self {
-            ConnectionCloseFrame::App(frame) => 1 + 8 + 2 + frame.reason.len(),
-            ConnectionCloseFrame::Quic(frame) => 1 + 8 + 8 + 2 + frame.reason.len(),
+            ConnectionCloseFrame::App(frame) => 1 + 8 + reason_len(&frame.reason),
+            ConnectionCloseFrame::Quic(frame) => 1 + 8 + 8 + reason_len(&frame.reason),
         }
     }
 
@@ -150,7 +153,9 @@ impl super::EncodeSize for ConnectionCloseFrame {
                     + frame.reason.len()
             }
             ConnectionCloseFrame::Quic(frame) => {
-                1 + VarInt::from(frame.error_kind).encoding_size() + 1
+                // the frame type is a varint too: the extension frames need 4 bytes
+                1 + VarInt::from(frame.error_kind).encoding_size()
+                    + VarInt::from(frame.frame_type).encoding_size()
                     // reason's length could not exceed 16KB.
                     + VarInt::try_from(frame.reason.len()).unwrap().encoding_size()
                     + frame.reason.len()
